@@ -3,8 +3,9 @@
     The theorems are about the executable model Gpkg/Model.v of processing/gpkg/gpkg.go
     (WriteFeatures / writeFeatures / CreateTables / insertSQL), for EVERY stream of features and EVERY
     page size p > 0 — induction over the stream, no bound.  A stream is a list of features; a feature
-    has arbitrary attribute values (NULL, integer, real, text) and a geometry of any type, possibly
-    empty; the table has any columns, the geometry column at ANY position.
+    has arbitrary attribute values (NULL, integer, real, text, blob, date/time; a Go bool read from a BOOLEAN
+    column is the integer 1 / 0 the driver binds it as) and a geometry of any type, possibly empty; the table
+    has any columns with ANY names (they are written as quoted identifiers), the geometry column at ANY position.
 
     Hypotheses that occur below and what they mean on the code:
     - [find_tab (t_name t) (db_tabs d) = Some ts]: the table was registered by CreateTables;
@@ -232,6 +233,7 @@ Example C12_regression_F10 :
     List.length (db_srs d) = 4%nat.
 Proof. split; [split; reflexivity|]. split; [discriminate|]. eexists. repeat split. Qed.
 
+From Coq Require Import Ascii.
 From Texel Require Import Gpkg.WriterOps Gpkg.ProofsGenWriter.
 From Texel.Gen Require Import GpkgWriterGen.
 
@@ -312,13 +314,24 @@ Qed.
     table: a CREATE TABLE that declares exactly the columns of the model's description [desc_of t] ([col_sql]: name,
     type, NOT NULL, PRIMARY KEY only for pk = 1); a SELECT of the table columns in table order (the order in which
     ReadFeatures hands the values on); an INSERT that names [insert_columns t] = the non-geometry columns in table
-    order followed by the geometry column, with one placeholder per name.  Last clause: for a table whose column
+    order followed by the geometry column, with one placeholder per name.  Clause 4: for a table whose column
     names are distinct, the model's row layout [weave] (used by [insert_row] = stmt.Exec in the tie above) IS what
     SQL's INSERT with that column list does with the values (attribute values ++ geometry): each table column gets
     the value listed under its name; both fail exactly when the value count does not fit.
+    After fix a631213 (F20) EVERY column name in the three texts -- also the geometry column of the INSERT -- is written
+    as a quoted identifier ([quote_ident]: in double quotes, an embedded double quote doubled; [select_columns_sql],
+    [insert_columns_sql], [col_sql]); before, the names were written bare, and a name that is an SQL keyword or contains
+    a space made the statement a syntax error (log.Fatalf).  [quoteIdentifier] itself is regenerated from its body
+    (clause 5), and clauses 6-7 say that the column lists of the INSERT and SELECT texts, read the way SQL reads
+    quoted identifiers ([read_ident_list]), are exactly the names clause 4 and [op_QuerySelect] work with.
+    STATEMENT CHANGE against the round-5 version of this theorem (the texts themselves changed): clauses 2-3 have
+    [select_columns_sql t] / [insert_columns_sql t] where they had the bare [map c_name (t_cols t)] / [insert_columns t];
+    clause 1 reads the same but [col_sql] now quotes the name; clauses 5-7 are new.
     MODELLED: strings.Join = [String.concat]; fmt.Sprintf with one %v of a string = the text around the verb and
-    the string; the Go ints column.notnull / column.pk = [Z.b2z (c_notnull c)] / [Z.of_N (c_pk c)]; that SQLite
-    assigns the values of an INSERT by column name ([sql_insert_row], Gpkg/WriterOps.v). *)
+    the string; strings.ReplaceAll(s, c, new) for a one-byte ASCII c = every such byte replaced ([op_ReplaceAll1]);
+    the Go ints column.notnull / column.pk = [Z.b2z (c_notnull c)] / [Z.of_N (c_pk c)]; that SQLite
+    assigns the values of an INSERT by column name ([sql_insert_row], Gpkg/WriterOps.v) and reads a double-quoted
+    identifier as [read_ident] does. *)
 Theorem C12_source_tie_sql :
   (forall t, gen_createSQL t =
      WOk (String.append (String.append (String.append
@@ -326,29 +339,82 @@ Theorem C12_source_tie_sql :
             (String.concat ", " (map col_sql (td_cols (desc_of t))))) ");")) /\
   (forall t, gen_selectSQL t =
      WOk (String.append (String.append (String.append (String.append "SELECT "
-            (String.concat "," (map c_name (t_cols t)))) " FROM """) (t_name t)) """;")) /\
+            (String.concat "," (select_columns_sql t))) " FROM """) (t_name t)) """;")) /\
   (forall t, gen_insertSQL t =
      WOk (String.append (String.append (String.append (String.append (String.append (String.append
-            "INSERT INTO """ (t_name t)) """(") (String.concat "," (insert_columns t))) ") VALUES(")
+            "INSERT INTO """ (t_name t)) """(") (String.concat "," (insert_columns_sql t))) ") VALUES(")
             (String.concat "," (repeat "?"%string (List.length (insert_columns t))))) ")")) /\
   (forall t attrs g, NoDup (map c_name (t_cols t)) ->
      weave (t_cols t) (t_gcol t) attrs g =
-     sql_insert_row (t_cols t) (insert_columns t) (map CVal attrs ++ [CGeom g])).
+     sql_insert_row (t_cols t) (insert_columns t) (map CVal attrs ++ [CGeom g])) /\
+  (forall s, gen_quoteIdentifier s = WOk (quote_ident s)) /\
+  (forall t, read_ident_list (List.length (insert_columns t)) ","%char (String.concat "," (insert_columns_sql t)) =
+             Some (insert_columns t)) /\
+  (forall t, t_cols t <> [] ->
+     read_ident_list (List.length (t_cols t)) ","%char (String.concat "," (select_columns_sql t)) = Some (map c_name (t_cols t))).
 Proof. exact source_tie_sql. Qed.
 Print Assumptions C12_source_tie_sql.
 
+(** a quoted identifier always reads back as the name it was made from -- EVERY name, whatever bytes it contains (SQL
+    keywords, spaces, commas, double quotes, non-ASCII): [read_ident] is SQL's reading of a double-quoted identifier (up to
+    the first double quote that is not doubled; a doubled one stands for one quote character).  Clause 1: followed by any
+    text that does not go on with a double quote (in the SQL texts: a comma, a space, a parenthesis, the end), the token
+    ends where the quoting ended and stands for the name.  Clause 2-3: alone it is the name; distinct names have distinct
+    quoted forms.  Clause 4: a comma-separated list of quoted names reads back as exactly these names (a comma or a quote
+    inside a name cannot shift a boundary). *)
+Theorem C12_quoted_identifier_reads_back :
+  (forall s rest, no_dquote_head rest -> read_ident (String.append (quote_ident s) rest) = Some (s, rest)) /\
+  (forall s, unquote_ident (quote_ident s) = Some s) /\
+  (forall a b, quote_ident a = quote_ident b -> a = b) /\
+  (forall names fuel, names <> [] -> (List.length names <= fuel)%nat ->
+     read_ident_list fuel ","%char (String.concat "," (map quote_ident names)) = Some names).
+Proof. exact quoted_identifiers. Qed.
+Print Assumptions C12_quoted_identifier_reads_back.
+
 (** the regenerated text functions run on the table above (geometry column in the middle) *)
 Example C12_source_tie_sql_example :
-  gen_insertSQL ex_table = WOk "INSERT INTO ""t1""(fid,a,b,c,geom) VALUES(?,?,?,?,?)"%string /\
-  gen_selectSQL ex_table = WOk "SELECT fid,a,geom,b,c FROM ""t1"";"%string /\
+  gen_insertSQL ex_table = WOk "INSERT INTO ""t1""(""fid"",""a"",""b"",""c"",""geom"") VALUES(?,?,?,?,?)"%string /\
+  gen_selectSQL ex_table = WOk "SELECT ""fid"",""a"",""geom"",""b"",""c"" FROM ""t1"";"%string /\
   gen_createSQL ex_table =
-    WOk "CREATE TABLE IF NOT EXISTS ""t1""(fid INTEGER NOT NULL PRIMARY KEY, a INTEGER, geom POLYGON, b TEXT, c REAL);"%string /\
+    WOk "CREATE TABLE IF NOT EXISTS ""t1""(""fid"" INTEGER NOT NULL PRIMARY KEY, ""a"" INTEGER, ""geom"" POLYGON, ""b"" TEXT, ""c"" REAL);"%string /\
   NoDup (map c_name (t_cols ex_table)) /\
   sql_insert_row (t_cols ex_table) (insert_columns ex_table)
     (map CVal [VInt 1; VInt 7; VText 1; VReal 12] ++ [CGeom (ex_geom 0)]) =
     Some [CVal (VInt 1); CVal (VInt 7); CGeom (ex_geom 0); CVal (VText 1); CVal (VReal 12)].
 Proof.
   split; [vm_compute; reflexivity|]. split; [vm_compute; reflexivity|]. split; [vm_compute; reflexivity|].
+  split; [|vm_compute; reflexivity].
+  repeat constructor; cbn; intuition discriminate.
+Qed.
+
+(** F20 (fixed, a631213): a table whose columns are named by an SQL keyword ([order]), with a space ([street name]) and
+    with a double quote (a, double quote, b), the geometry column by another keyword ([select]).  Written bare -- the pinned tree --
+    each of the three texts was a syntax error and the tool ended in log.Fatalf; the regenerated functions of the
+    repaired tree write every name as ONE quoted identifier, and read the way SQL reads them the column lists are the
+    names again.  Undoing the repair removes [gen_quoteIdentifier] and changes the regenerated texts:
+    [C12_source_tie_sql] stops checking. *)
+Definition ex_quoted_table : table :=
+  MkTable "t q" [MkCol "order" "INTEGER" true 1; MkCol "street name" "TEXT" false 0; MkCol "select" "POINT" false 0;
+                 MkCol "a""b" "BOOLEAN" false 0] "select" 1 ex_srs.
+
+Example C12_regression_F20 :
+  gen_createSQL ex_quoted_table =
+    WOk "CREATE TABLE IF NOT EXISTS ""t q""(""order"" INTEGER NOT NULL PRIMARY KEY, ""street name"" TEXT, ""select"" POINT, ""a""""b"" BOOLEAN);"%string /\
+  gen_selectSQL ex_quoted_table = WOk "SELECT ""order"",""street name"",""select"",""a""""b"" FROM ""t q"";"%string /\
+  gen_insertSQL ex_quoted_table =
+    WOk "INSERT INTO ""t q""(""order"",""street name"",""a""""b"",""select"") VALUES(?,?,?,?)"%string /\
+  gen_quoteIdentifier "a""b" = WOk """a""""b"""%string /\
+  read_ident_list 4 ","%char "order,""street name"",""a""""b"",""select""" = None /\
+  read_ident_list 4 ","%char """order"",""street name"",""a""""b"",""select""" = Some ["order"; "street name"; "a""b"; "select"]%string /\
+  read_ident_list 4 ","%char (String.concat "," (insert_columns_sql ex_quoted_table)) = Some (insert_columns ex_quoted_table) /\
+  (* a comma and a quote INSIDE a name do not shift a boundary *)
+  read_ident_list 2 ","%char (String.concat "," (map quote_ident ["x"",""y"; "z"]%string)) = Some ["x"",""y"; "z"]%string /\
+  NoDup (map c_name (t_cols ex_quoted_table)) /\
+  sql_insert_row (t_cols ex_quoted_table) (insert_columns ex_quoted_table)
+    (map CVal [VInt 1; VText 2; VInt 0] ++ [CGeom (MkGeom 1 [(1, 2)] 7)]) =
+    Some [CVal (VInt 1); CVal (VText 2); CGeom (MkGeom 1 [(1, 2)] 7); CVal (VInt 0)].
+Proof.
+  repeat (split; [vm_compute; reflexivity|]).
   split; [|vm_compute; reflexivity].
   repeat constructor; cbn; intuition discriminate.
 Qed.
@@ -373,9 +439,13 @@ From Texel.Gen Require Import GpkgSchemaGen.
     GetTableInfo is one table per row of gpkg_geometry_columns, in order, with these three.
     Clause 8 (ReadFeatures): for a table whose declared column names are the table's (distinct) and contain the geometry
     column, and whose rows are the rows the model's layout [row_of] = [weave] gives for features [fs] (any driver
-    representation [cell_drv]: text as string or []uint8, NULL as nil, the geometry a blob that decodes to it, AT WHATEVER
-    POSITION the geometry column has -- [C12_geometry_cell_position]): exactly [fs] is sent, in order, then the channel
-    is closed.
+    representation [cell_drv]: text as string, a blob as []uint8 -- kept a blob since fix 4dc32dc, F19 --, NULL as nil, an
+    integer 1 / 0 either as int64 or, in a column declared BOOLEAN, as the Go bool true / false -- read since fix 574d563,
+    F18 --, the geometry a blob that decodes to it, AT WHATEVER POSITION the geometry column has --
+    [C12_geometry_cell_position]): exactly [fs] is sent, in order, then the channel is closed.  The STATEMENT is the
+    round-5 one; the relation [cell_drv] behind [row_rel] changed with the repairs: it gained the bool clause (stronger:
+    such rows were excluded before, and ended the tool) and its []uint8 clause now speaks of a BLOB value ([VBlob]) where
+    it spoke of a text (the pinned tree turned a blob cell into a text; the driver hands a text over as string).
 
     REGENERATED, statement by statement from the AST: the loop over the tables with its three early returns; UpdateSRS
     then the UPDATE (fix e2006e7) with the five srs fields and the id IN THIS ORDER; createSQL -> Exec -> log.Fatalf;
@@ -385,7 +455,9 @@ From Texel.Gen Require Import GpkgSchemaGen.
     destination receives which result column; the call order getTableColumns / geometryTypeFromString /
     getSpatialReferenceSystem and where their results go; the switch over the type names; in ReadFeatures the column loop
     with its index, the test [colName == source.Table.gcolumn], vals[i].([]byte) (a NULL geometry: the panic is an error
-    value), the type switch with its six cases and the fatal default, [f.columns = c], the send, rows.Err, close.
+    value), the type switch with its seven cases (one match branch per case the SOURCE lists; what is appended in each --
+    the value itself, [string(asBytes)] or [asBytes] -- is read from the AST) and the fatal default, [f.columns = c], the
+    send, rows.Err, close.
 
     Stays MODELLED (trusted; listed at the top of the generated file; each call mapped only after its exact shape -- for
     SQL its exact text -- was checked in the AST; defined in Gpkg/SchemaOps.v and held to SQLite and the library by the
@@ -393,7 +465,9 @@ From Texel.Gen Require Import GpkgSchemaGen.
     the id), op_ExecCreate, op_AddGeometryTable, the four queries, op_Next / op_Scan.. / op_RowsColumns / op_RowsErr /
     op_RowsClose, the idiom valPtrs[i] = &vals[i] + Scan(valPtrs...) = op_ScanAll, make + copy of a []byte = bytes_copy,
     ff := &f = f, op_DecodeGeometry, op_ToUpper (ASCII), the gpkg constants, the representation of column.notnull /
-    column.pk as bool / N and of the definition text by its digest, log.Fatal.. = the process ends, channel send / close. *)
+    column.pk as bool / N and of the definition text by its digest, log.Fatal.. = the process ends, channel send / close;
+    a Go bool attribute value = the integer go-sqlite3 binds it as ([value_of_bool]: nothing between ReadFeatures and
+    stmt.Exec looks at an attribute value). *)
 Theorem C12_source_tie_schema :
   (forall tg d tl, srs_keyed d -> Forall int32_srs tl ->
      match create_tables d tl with
@@ -482,8 +556,8 @@ Proof.
 Qed.
 
 (** the error paths of the source side run too: a NULL geometry cell (the type assertion panics), a value of a type
-    the type switch does not list (go-sqlite3 hands over a bool for a BOOLEAN column: log.Fatalf), a NULL srs description (read as ""), an
-    srs id without a row (the zero value) *)
+    the type switch does not list in the geometry column, a NULL srs description (read as ""), an srs id without a row
+    (the zero value) *)
 Definition ex_source (cell : drv) (df : dfltv) : srcdb :=
   MkSrc [("t1", "geom", "polygon", 28992)]%string
         [MkSSrs "Amersfoort / RD New" 28992 "EPSG" 28992 12345 None]
@@ -497,7 +571,7 @@ Definition ex_source_table : table :=
 Example C12_source_tie_schema_errors :
   gen_GetTableInfo (MkSource table_zero) (ex_source DNil DfNull) = WOk [ex_source_table] /\
   gen_ReadFeatures (MkSource ex_source_table) (ex_source (DBytes (Bytes 0 (Some (ex_geom 4)))) DfNull) (MkOChan [] false) =
-    WOk (MkOChan [MkGFeat [AVal (VInt 1); AVal (VText 5)] (ex_geom 0); MkGFeat [AVal (VInt 2); AVal (VText 6)] (ex_geom 4)] true) /\
+    WOk (MkOChan [MkGFeat [AVal (VInt 1); AVal (VBlob 5)] (ex_geom 0); MkGFeat [AVal (VInt 2); AVal (VText 6)] (ex_geom 4)] true) /\
   gen_ReadFeatures (MkSource ex_source_table) (ex_source DNil DfNull) (MkOChan [] false) =
     WErr (Stop "interface conversion: interface {} is not []uint8") /\
   gen_ReadFeatures (MkSource (set_t_gcol ex_source_table "a")) (ex_source (DOther 1) DfNull) (MkOChan [] false) =
@@ -522,6 +596,92 @@ Example C12_regression_F17 :
   snd (op_ScanTableInfo (Some (2, "a", "TEXT", false, DfText, 0%N)%string) (0, "", "", false, None, 0%N)%string) =
     Some (Stop "sql: Scan error on column dflt_value: converting a string to int").
 Proof. repeat split; vm_compute; reflexivity. Qed.
+
+(** F18 (fixed, 574d563) and F19 (fixed, 4dc32dc).  A source table with a column declared BOOLEAN and a BLOB column: the
+    driver hands the integer cells 1 / 0 of the first over as Go bools, the cells of the second as []uint8 -- one of them
+    the bytes of a text another row holds AS text (content id 6).  The pinned tree ended on the first bool ("unexpected
+    type for sqlite column data", log.Fatalf: the default branch, still there for other types) and turned the blob into
+    the text with the same bytes.  The regenerated ReadFeatures of the repaired tree sends the bool on as the integer it
+    is bound as and the blob as a blob, distinct from the text; the row-for-row copy [gen_WriteFeatures] then stores has
+    the source's cells.  The translator emits one match branch per case the source lists and what that case appends, so
+    undoing either repair breaks [C12_source_tie_schema]. *)
+Definition ex_bool_blob_table : table :=
+  MkTable "t1" [MkCol "fid" "INTEGER" true 1; MkCol "geom" "POLYGON" false 0; MkCol "flag" "BOOLEAN" false 0;
+                MkCol "order" "BLOB" false 0] "geom" 3 (MkSrs "Amersfoort / RD New" 28992 "EPSG" 28992 12345 "").
+Definition ex_bool_blob_source : srcdb :=
+  MkSrc [("t1", "geom", "polygon", 28992)]%string
+        [MkSSrs "Amersfoort / RD New" 28992 "EPSG" 28992 12345 None]
+        [MkSTable "t1" [(0, "fid", "INTEGER", true, DfNull, 1%N); (1, "geom", "POLYGON", false, DfNull, 0%N);
+                        (2, "flag", "BOOLEAN", false, DfNull, 0%N); (3, "order", "BLOB", false, DfNull, 0%N)]%string
+                  [[DInt 1; DBytes (Bytes 9 (Some (ex_geom 0))); DBool true; DBytes (Bytes 6 None)];
+                   [DInt 2; DBytes (Bytes 9 (Some (ex_geom 4))); DBool false; DString 6];
+                   [DInt 3; DBytes (Bytes 9 (Some (ex_geom 3))); DNil; DBytes (Bytes 0 (Some (ex_geom 3)))]]].
+Definition ex_bool_blob_features : list feature :=
+  [MkFeature [VInt 1; VInt 1; VBlob 6] (ex_geom 0); MkFeature [VInt 2; VInt 0; VText 6] (ex_geom 4);
+   MkFeature [VInt 3; VNull; VBlob 0] (ex_geom 3)].
+
+Example C12_regression_F18 :
+  gen_GetTableInfo (MkSource table_zero) ex_bool_blob_source = WOk [ex_bool_blob_table] /\
+  gen_ReadFeatures (MkSource ex_bool_blob_table) ex_bool_blob_source (MkOChan [] false) =
+    WOk (MkOChan (map gfeat_of ex_bool_blob_features) true) /\
+  (* the bool is passed on as the integer the driver binds it as *)
+  map (fun f => nth 1 (f_attrs f) VNull) ex_bool_blob_features = [VInt 1; VInt 0; VNull] /\
+  value_of_bool true = VInt 1 /\ value_of_bool false = VInt 0 /\
+  (* hypotheses of the theorem hold here: the rows are the model's rows of these features, every bool cell stands for the integer *)
+  Forall2 (row_rel ex_bool_blob_table) ex_bool_blob_features
+          (match sd_tables ex_bool_blob_source with st :: _ => st_rows st | [] => [] end) /\
+  (* written by the regenerated writer to a new file: the rows hold the integers 1 / 0 / NULL *)
+  match create_tables empty_db [ex_bool_blob_table] with
+  | Ok d0 =>
+      match gen_WriteFeatures (MkTarget ex_bool_blob_table 2) (idle d0) ex_bool_blob_features with
+      | WOk w => option_map (fun ts => map (fun r => nth 2 r (CVal VNull)) (ts_rows ts)) (find_tab "t1" (db_tabs (wd_db w))) =
+                 Some [CVal (VInt 1); CVal (VInt 0); CVal VNull]
+      | WErr _ => False
+      end
+  | Err _ => False
+  end.
+Proof.
+  split; [vm_compute; reflexivity|]. split; [vm_compute; reflexivity|]. split; [reflexivity|].
+  split; [reflexivity|]. split; [reflexivity|]. split; [|vm_compute; reflexivity].
+  cbn [sd_tables ex_bool_blob_source st_rows ex_bool_blob_features].
+  constructor; [|constructor; [|constructor; [|constructor]]].
+  - exists [CVal (VInt 1); CGeom (ex_geom 0); CVal (VInt 1); CVal (VBlob 6)]. split; [reflexivity|].
+    constructor; [apply cd_int|]. constructor; [apply cd_geom|]. constructor; [exact (cd_bool true)|].
+    constructor; [apply cd_bytes|constructor].
+  - exists [CVal (VInt 2); CGeom (ex_geom 4); CVal (VInt 0); CVal (VText 6)]. split; [reflexivity|].
+    constructor; [apply cd_int|]. constructor; [apply cd_geom|]. constructor; [exact (cd_bool false)|].
+    constructor; [apply cd_string|constructor].
+  - exists [CVal (VInt 3); CGeom (ex_geom 3); CVal VNull; CVal (VBlob 0)]. split; [reflexivity|].
+    constructor; [apply cd_int|]. constructor; [apply cd_geom|]. constructor; [apply cd_null|].
+    constructor; [apply cd_bytes|constructor].
+Qed.
+
+Example C12_regression_F19 :
+  (* the blob stays a blob, the text with the same bytes stays a text, and they differ *)
+  gen_ReadFeatures (MkSource ex_bool_blob_table) ex_bool_blob_source (MkOChan [] false) =
+    WOk (MkOChan (map gfeat_of ex_bool_blob_features) true) /\
+  map (fun f => nth 2 (f_attrs f) VNull) ex_bool_blob_features = [VBlob 6; VText 6; VBlob 0] /\
+  value_eqb (VBlob 6) (VText 6) = false /\ VBlob 6 <> VText 6 /\
+  bytes_blob (Bytes 6 None) = bytes_text (Bytes 6 None) /\
+  (* an attribute blob that happens to be a GeoPackage geometry blob is a blob all the same (third row) *)
+  attr_of_drv (DBytes (Bytes 0 (Some (ex_geom 3)))) = Some (AVal (VBlob 0)) /\
+  (* written and read back through the regenerated code: blob, text, blob *)
+  match create_tables empty_db [ex_bool_blob_table] with
+  | Ok d0 =>
+      match write_features 2 ex_bool_blob_table d0 ex_bool_blob_features with
+      | Ok d =>
+          option_map (fun ts => map (fun r => nth 3 r (CVal VNull)) (ts_rows ts)) (find_tab "t1" (db_tabs d)) =
+            Some [CVal (VBlob 6); CVal (VText 6); CVal (VBlob 0)] /\
+          gen_ReadFeatures (MkSource ex_bool_blob_table) (src_of_db d) (MkOChan [] false) =
+            WOk (MkOChan (map gfeat_of ex_bool_blob_features) true)
+      | Err _ => False
+      end
+  | Err _ => False
+  end.
+Proof.
+  split; [vm_compute; reflexivity|]. split; [reflexivity|]. split; [reflexivity|]. split; [discriminate|].
+  split; [reflexivity|]. split; [reflexivity|]. vm_compute. split; reflexivity.
+Qed.
 
 (** why [int32_srs] is a hypothesis: an srs id beyond int32.  The model registers the table under that id; the code hands
     int32(id) to AddGeometryTable, which does not find that srs *)
